@@ -27,9 +27,13 @@ Driver for stream `fees` (C07). One op per line, one observation per line.
   expsize <sre> <inv-hex> <ver-hex> <count>  -> `Pack.expectedSizeWithoutTx`
   encblock <version> <prevhash> <merkle> <timestamp> <nonce> <index> <primary> <nextconsensus> <sre> <prevstateroot>
            <inv> <ver> <k> <tx-hex>^k        -> <length> <sha256 of `Pack.encodeBlock`> <`Pack.expectedBlockSize`>
+  nprice <base> <Notary|OracleContract>      -> datoshi a witness of that native contract costs   (`Native.nativeVerifyPrice`)
   feesvalid <sysfee word> <netfee word>       -> ok | neg-sys | neg-net | too-big   (`FeeFields.feesValid`, uint64 words)
   needm <size> <feePerByte> <attrFees> <netFee> -> <need> <0|1>              (`FeeFields.needM`, `smallNetFeeM`, int64)
   relevant <vector of admit>                 -> 1 | 0                        (`Pack.stillRelevant`)
+  ledger <notary> <nbal> (primary secondary balance)^nbal <k> (scratch tx)^k -> ok | tx <i> err:<class> | conflict <i>   (`Pack.ledgerLoop`)
+  daoseq <mtb> <n> (T hash index nacc acc^n nconf hash^c | B hash)^n <q> (hash height nsig acc^nsig)^q
+                                             -> none|exists|conflicts per query  (`Pack.storeTx`, `Admission.hasTransaction`)
   relevantp <nblk> (scratch tx)^nblk <vector of admit> -> 1 | 0              (`Pack.stillRelevantAfter`)
   scratch <notary> <nbal> (primary secondary balance)^nbal <k> (hash sysFee netFee n acc^n c hash^c oracle|-)^k
                                              -> verdicts and final content   (`Pack.scratchAdd` from the empty pool)
@@ -296,6 +300,64 @@ def runRelevantP (ts : List String) : Option String := do
   let (c, t, _) ← parseAdmit r
   pure (if stillRelevantAfter c blk t then "1" else "0")
 
+/-- one step of a `daoseq` line: `T hash index nacc acc^n nconf hash^c` (StoreAsTransaction) | `B hash` (StoreAsBlock). -/
+def pDaoOp : P ((Nat → Rec) → (Nat → Rec)) := fun ts => do
+  let (k, r) ← pTok ts
+  if k == "B" then do
+    let (h, r) ← pNat r
+    pure ((fun lk x => if x = h then Rec.block else lk x), r)
+  else if k == "T" then do
+    let (h, r) ← pNat r
+    let (idx, r) ← pNat r
+    let (accs, r) ← pCounted pNat r
+    let (cfs, r) ← pCounted pNat r
+    let y : Tx := { hash := h, version := 0, scriptLen := 1, scriptOk := true, sysFee := 0, netFee := 0, validUntil := 0, size := 0,
+                    signers := accs.map fun a => ⟨a, false, .missing⟩, attrs := cfs.map Attr.conflicts }
+    pure ((fun lk => storeTx lk y idx), r)
+  else none
+
+def pDaoQuery : P (Nat × Nat × List Nat) := fun ts => do
+  let (h, r) ← pNat ts
+  let (height, r) ← pNat r
+  let (sg, r) ← pCounted pNat r
+  pure ((h, height, sg), r)
+
+/-- `daoseq <mtb> <n> op^n <q> (hash height nsig acc^nsig)^q` -> the verdicts of `HasTransaction` after the stores
+    (`Pack.storeTx`, `Admission.hasTransaction`): none | exists | conflicts -/
+def runDaoSeq (ts : List String) : Option String := do
+  let (mtb, r) ← pNat ts
+  let (ops, r) ← pCounted pDaoOp r
+  let (qs, r) ← pCounted pDaoQuery r
+  if !r.isEmpty then none
+  let lk := ops.foldl (fun lk f => f lk) (fun _ => Rec.none)
+  let show1 := fun (q : Nat × Nat × List Nat) =>
+    match hasTransaction (lk q.1) q.2.2 q.2.1 mtb with
+    | none => "none"
+    | some .alreadyExists => "exists"
+    | some _ => "conflicts"
+  pure (String.intercalate "," (qs.map show1))
+
+/-- `ledger <notary> <nbal> (primary secondary balance)^nbal <k> (scratch tx)^k` -> ok | tx <i> err:<class> | conflict <i>
+    (`Pack.ledgerLoop` on a block none of whose transactions the node holds in its pool; the harness only sends
+    transactions whose chain part is fine, so the chain here lets everything through and the verdict is that of the
+    scratch pool plus the count check of AddBlock) -/
+def runLedger (ts : List String) : Option String := do
+  let (notary, r) ← pNat ts
+  let (bals, r) ← pCounted pBal r
+  let (txs, r) ← pCounted pScratchTx r
+  if !r.isEmpty then none
+  let bal := fun (q : Nat × Nat) => ((bals.find? (·.1 == q)).map (·.2)).getD 0
+  let c : Chain := { height := 0, maxVUBInc := 10, maxBlockSysFee := 0, feePerByte := 0, base := 1, maxVerGas := 1, mtb := 1,
+                     gorgon := false, p2pSigExt := false, reservedAttrs := true, notaryActive := true, attrFee := fun _ => 0,
+                     blocked := fun _ => false, lookup := fun _ => Rec.none, committee := 0, oracleHash := none, notary := notary,
+                     validKey := fun _ => false, verify := fun _ _ => false }
+  let txs := txs.map fun t => { t with validUntil := 1, signers := t.signers.map fun sg => { sg with wit := Wit.contract fun _ => WRes.ok 0 } }
+  match ledgerLoop c bal (fun _ => false) 0 [] txs with
+  | none => pure "ok"
+  | some (.tx i e) => pure s!"tx {i} err:{errName e}"
+  | some (.conflictInBlock i) => pure s!"conflict {i}"
+  | some _ => pure "other"
+
 def step (s : Unit) (ws : List String) : Unit × String :=
   match ws with
   | ["case", k] => (s, s!"case {k}")
@@ -355,6 +417,8 @@ def step (s : Unit) (ws : List String) : Unit × String :=
   | "admit" :: ts => (s, (runAdmit ts).getD "bad-op")
   | "relevant" :: ts => (s, (runRelevant ts).getD "bad-op")
   | "relevantp" :: ts => (s, (runRelevantP ts).getD "bad-op")
+  | "daoseq" :: ts => (s, (runDaoSeq ts).getD "bad-op")
+  | "ledger" :: ts => (s, (runLedger ts).getD "bad-op")
   | "scratch" :: ts => (s, (runScratch ts).getD "bad-op")
   | "pack" :: ts =>
     let r : Option String := do
@@ -368,6 +432,10 @@ def step (s : Unit) (ws : List String) : Unit × String :=
       let w := defaultWitness (chunks 33 vals.length vals)
       pure s!"{(applyPolicyM ⟨maxTx, mbs, mbf, sre, w.1, w.2⟩ txs).length}"
     (s, r.getD "bad-op")
+  | ["nprice", base, contract] =>
+    match base.toNat? with
+    | some base => (s, s!"{nativeVerifyPrice base contract (contract == "Notary")}")
+    | none => (s, "bad-op")
   | ["feesvalid", a, b] =>
     match a.toNat?, b.toNat? with
     | some a, some b =>
